@@ -214,6 +214,28 @@ theorem pending_survives_reads (cfg : Cfg) (mid : List (SOp V)) :
       simpa only [List.cons_append, runScript, sstep, sstepBack, hns', if_false, hql] using h2
     | _ => exact absurd hop (by simp [Quiet])
 
+/-- setting a key AGAIN to the value the session already holds for it still marks the session
+dirty and the next push still delivers it (NewData is the session's memory, not the front's
+state: another service may have overwritten the key meanwhile) — the later push wins -/
+theorem reset_same_value_still_pushed (cfg : Cfg) (s : State V) (b : Back V) (m : AL V) (k : Key) (v : V)
+    (hb : BackInv true b) (hf : cfg.isFront b.serverId = true) (hm : lget s.fronts b.target = some m)
+    (hk : k ≠ KeyServerId ∧ k ≠ KeyNetId) (hv : JVal.rep v = true) (_hold : lget b.newData k = some v) :
+    (b.set k v).dirt = true ∧
+    (lget (backPush cfg s (b.set k v)).1.fronts b.target).bind (fun m' => lget m' k) = some (JVal.norm v) := by
+  have hb1 : BackInv true (b.set k v) := backInv_set hb (fun _ => ⟨hk.1, hk.2, hv⟩)
+  have hj := toJson_eq_some hb1.ndN (hb1.repN rfl)
+  have hkk : (keys ((b.set k v).newData.map fun e => (e.1, (JVal.norm e.2 : V)))).Nodup := by
+    rw [keys_map_val]; exact hb1.ndN
+  have hp := backPush_live cfg s (b.set k v) m _ rfl hf hm hj
+  refine ⟨rfl, ?_⟩
+  rw [hp]
+  show (lget (lset s.fronts b.target _) b.target).bind _ = _
+  rw [lget_lset_same]
+  simp only [Option.bind_some]
+  rw [lget_amerge _ _ _ hkk, lget_map_val]
+  show (match (lget (lset b.newData k v) k).map JVal.norm with | some v => some v | none => lget m k) = _
+  rw [lget_lset_same]; rfl
+
 /-- the pre-fix `FromJson` cleared the flag … -/
 theorem d16_prefix_query_clears_dirty (b : Back V) (j : Option (AL V)) (h : (b.fromJsonPre j).2 = false) :
     (b.fromJsonPre j).1.dirt = false := by
